@@ -52,6 +52,28 @@ def main():
     steps = 3 if quick else 6
     with ThreadPoolExecutor(NCPU) as ex:
         runs = list(ex.map(lambda c: one_run(c, steps), cfgs))
+    # the repository's own tests under the recorder, in fresh interpreters with different hash seeds and symbol-counter
+    # offsets: the k-th Procedure a test creates must print identically in every run
+    if not a.only:
+        from ..testrec import run_tests, QUICK_FILES, THOROUGH_FILES
+        files = ["tests/test_schedules.py", "tests/test_cursors.py", "tests/test_config.py"] if quick else \
+                [f for f in THOROUGH_FILES if "apps" not in f]
+        tvars = [("1", 0), ("2", 950), ("3", 99000)] + ([] if quick else [("4", 9990), ("random", 7)])
+
+        def trun(v):
+            with scratch() as dd:
+                recs, info = run_tests(files, dd, fwd=False, units=False, purity=False, texts=True,
+                                       extra_env={"PYTHONHASHSEED": v[0], "TESTREC_SYM_OFFSET": str(v[1])})
+            obs = []
+            for r_ in recs:
+                if r_.get("kind") == "texts":
+                    for k_, dg in enumerate(r_["digests"]):
+                        obs.append({"key": "repo:" + r_["test"], "step": k_, "chain": [], "str": dg, "c": "-", "h": "-"})
+            return {"cfg": {"hashseed": v[0], "offset": v[1], "module": "repository tests"}, "obs": obs}
+        with ThreadPoolExecutor(len(tvars)) as ex:
+            truns = list(ex.map(trun, tvars))
+        rep.add_cov(repo_test_runs=len(truns), repo_test_procedures_observed=min(len(t["obs"]) for t in truns))
+        runs += truns
     # group runs per module so that `expected` is per module; order: reference variant first
     with scratch() as d:
         path = os.path.join(d, "runs.json")
@@ -94,7 +116,9 @@ def main():
                        "procedure and multi-procedure libraries with configs, windows, several memories); the same scripted "
                        "session is run in fresh interpreters with PYTHONHASHSEED 0/1/2/random, 0/37/1000 symbols and up to 5 "
                        "procedures created beforehand, unrelated corpus modules imported in forward/reverse/no order; distinct = "
-                       "distinct (procedure, step) keys; the Determinism spec rejects the first disagreeing observation")
+                       "distinct (procedure, step) keys; the Determinism spec rejects the first disagreeing observation; the repository's "
+                       "own test files are run under the recorder with hash seeds 1/2/3 and 0/950/99000 symbols created first: the "
+                       "k-th Procedure each test creates must print identically")
     rep.assumptions += ["2-safety by sampling of process histories; address-space randomisation as provided by the kernel"]
     return rep.finish()
 
